@@ -96,8 +96,24 @@ class Table:
                 self.steps = [analyse_step(facts, ty, s.fn, s.kind, self.const_fields) for s in self.steps]
         adt = facts.adt(norm_ty(ty).split('<')[0])
         self.fields = {fd['name']: fd for fd in adt['variants'][0]['fields']}
-        self.has_ledger = any(norm_ty(fd['ty']) == 'Checksum' for fd in self.fields.values())
-        self.ledger_field = next((n for n, fd in self.fields.items() if norm_ty(fd['ty']) == 'Checksum'), None)
+        # the running byte sum: a field of type Checksum, or a crate-private wrapper struct around exactly one Checksum
+        def is_ledger_ty(t):
+            t = norm_ty(t)
+            if t == 'Checksum': return True
+            if t in getattr(facts, 'transparent', ()):
+                inner = [fd for fd in facts.adt(t)['variants'][0]['fields']]
+                return sum(1 for fd in inner if norm_ty(fd['ty']) == 'Checksum') == 1
+            return False
+        self.has_ledger = any(is_ledger_ty(fd['ty']) for fd in self.fields.values())
+        self.ledger_field = next((n for n, fd in self.fields.items() if is_ledger_ty(fd['ty'])), None)
+
+    def ledger_value(self, st):
+        """the running sum held by the table state `st`"""
+        v = st.fields[self.ledger_field]
+        if isinstance(v, StructV) and v.path != 'Checksum':
+            inner = [x for x in v.fields.values() if isinstance(x, StructV) and x.path == 'Checksum']
+            v = inner[0] if len(inner) == 1 else v
+        return v.fields['value']
 
     def header(self, st): return get_path(st, self.hp)
 
